@@ -1,20 +1,155 @@
 (* C05 -- Caching never changes results, prevents recomputation, and unpersist is safe.
    Only statements, each closed by [exact] of a lemma from PV.Proofs.Cache*.
-   The element type A, the user functions inside the stages, the partitions, the number of
-   pipelines/contexts/managers, the persist positions and the histories are all universally quantified. *)
+   Universally quantified throughout: the element type A, the user functions inside the stages, the
+   partitions, the number of pipelines / contexts / managers and who shares what, the class of each
+   manager (None = CacheManager, Some t = TimedCacheManager(timeout=t)), local or pool jobs per
+   context, the persist positions, and the histories (collect / count / take n / first on ANY node,
+   unpersist of any node, clock advances, explicit gc) -- see Model/Cache.v and Model/CacheSpec.v. *)
 From Coq Require Import ZArith List Bool.
-Require Import PV.Model.Cache PV.Model.CacheSpec PV.Proofs.CacheWorld.
+Require Import PV.Model.Cache PV.Model.CacheSpec.
+Require Import PV.Proofs.CacheWorld PV.Proofs.CacheRecompute2 PV.Proofs.CacheRecompute3 PV.Proofs.CacheTimed
+  PV.Proofs.CacheUnpersist PV.Proofs.CacheFinding.
 Import ListNotations.
 Open Scope Z_scope.
 
-(* ids come from one counter: every dataset of every context gets an id of its own *)
+(* ---- ids: one process-wide counter => every dataset of every context has an id of its own ---- *)
 Theorem C05_ids_fresh : forall (A : Type) (w : world A), built w -> NoDup (world_ids w).
 Proof. exact built_ids_fresh. Qed.
 
-(* every action of every history (collect/count/take n/first on any node, unpersist anywhere, clock
-   advances, gc) returns what the cache-free evaluator returns, for any persist positions, any
-   number of contexts sharing or not sharing plain or timed managers, local or pool jobs *)
+(* ---- persist is transparent: every action of every history returns what the cache-free evaluator
+   returns (spec_action never looks at a manager) ---- *)
 Theorem C05_persist_transparent : forall (A : Type) (w : world A) (tos : list (option Z)) (h : list action),
   built w -> wf_world w (length tos) ->
   map (fun t => fst (fst t)) (run_history w (init_state A tos) h) = map (spec_action w) h.
 Proof. exact persist_transparent. Qed.
+
+(* the same from any state in which every entry holds what its key stands for -- the hypothesis that
+   fresh ids are what makes it work is explicit here *)
+Theorem C05_transparent_from_fresh_ids : forall (A : Type) (w : world A) h st,
+  NoDup (world_ids w) -> wf_world w (length (s_mgrs st)) -> st_ok w st ->
+  map (fun t => fst (fst t)) (run_history w st h) = map (spec_action w) h.
+Proof. exact history_transparent. Qed.
+
+(* ---- no cross read: with fresh ids a key stands for exactly one (dataset, partition), and every
+   entry of every manager in every reachable state holds exactly that partition's contents -- also
+   when two contexts share the manager ---- *)
+Theorem C05_key_stands_for_one : forall (A : Type) (w : world A) P j rid idx src d,
+  NoDup (world_ids w) -> In P (w_pipes w) ->
+  nth_error (p_nodes P) j = Some (rid, SPersist) -> nth_error (p_parts P) idx = Some src ->
+  (wspec w (rid, Z.of_nat idx) d <-> d = plain_rev (rev_prefix j (p_nodes P)) src).
+Proof. exact wspec_functional. Qed.
+Theorem C05_no_cross_read : forall (A : Type) (w : world A) h st,
+  NoDup (world_ids w) -> wf_world w (length (s_mgrs st)) -> st_ok w st ->
+  st_ok w (final_state w st h) /\ length (s_mgrs (final_state w st h)) = length (s_mgrs st).
+Proof. exact history_ok. Qed.
+
+(* ---- no recomputation ---- *)
+(* one action, any manager: the entry of partition i of the persisted node is present and none of its
+   stamps is expired => no call of any function upstream of the node for partition i, whether the
+   action is on the node (jd = 0) or on a descendant, and the entry is still there afterwards *)
+Theorem C05_no_recompute_action : forall (A : Type) pool now (pre post : list (node A)) rid jd parts a i (m : mgr A),
+  NoDup (map fst (pre ++ (rid, SPersist) :: post)) ->
+  has_key (rid, i) m -> stable now (rid, i) m ->
+  let c := run_action_on pool now (rev_prefix (length pre + 1 + jd) (pre ++ (rid, SPersist) :: post)) parts a m in
+  user_calls_of (map fst pre) i (snd (fst c)) = [] /\
+  has_key (rid, i) (snd c) /\ stable now (rid, i) (snd c).
+Proof. exact no_recompute_action. Qed.
+(* inside a world, CacheManager: present is enough *)
+Theorem C05_no_recompute_plain : forall (A : Type) (w : world A) st k P cx m pre rid post jd ak i,
+  built w ->
+  nth_error (w_pipes w) k = Some P -> p_nodes P = pre ++ (rid, SPersist) :: post ->
+  nth_error (w_ctxs w) (p_ctx P) = Some cx -> nth_error (s_mgrs st) (c_mgr cx) = Some m ->
+  m_timeout m = None -> has_key (rid, i) m ->
+  user_calls_of (map fst pre) i (snd (fst (step w st (Act k (length pre + 1 + jd) ak)))) = [].
+Proof. exact no_recompute_step_plain. Qed.
+(* TimedCacheManager: the full statement ("cached and younger than the timeout => not recomputed") is
+   FALSE of the code as it is (finding: delete() leaves the stamp in _time_added) *)
+Definition C05_no_recompute_full : Prop := no_recompute_full.
+Theorem C05_no_recompute_refuted : ~ C05_no_recompute_full.
+Proof. exact no_recompute_refuted. Qed.
+(* what holds: the same with the extra hypothesis that _time_added has no second stamp for any key
+   (true as long as a persisted dataset is not used again after its unpersist()) *)
+Theorem C05_no_recompute_timed_partial : forall (A : Type) (w : world A) tos h k P cx m to pre rid post jd ak i d t,
+  built w -> clock_monotone h ->
+  let st := final_state w (init_state A tos) h in
+  nth_error (w_pipes w) k = Some P -> p_nodes P = pre ++ (rid, SPersist) :: post ->
+  nth_error (w_ctxs w) (p_ctx P) = Some cx -> nth_error (s_mgrs st) (c_mgr cx) = Some m ->
+  m_timeout m = Some to ->
+  NoDup (map fst (m_times m)) ->
+  In ((rid, i), (d, t)) (m_entries m) -> t > s_now st - to ->
+  user_calls_of (map fst pre) i (snd (fst (step w st (Act k (length pre + 1 + jd) ak)))) = [].
+Proof. exact no_recompute_step_timed_partial. Qed.
+
+(* ---- timed manager: gc is complete ---- *)
+(* the bookkeeping invariant (sorted, bounded by the clock, a stamp for every entry) holds in every
+   reachable state: preserved by add, by the repaired join (entries from pool workers are stamped),
+   by gc, delete and by the passing of time *)
+Theorem C05_timed_invariant : forall (A : Type) (w : world A) tos h mi m to,
+  clock_monotone h ->
+  let st := final_state w (init_state A tos) h in
+  nth_error (s_mgrs st) mi = Some m -> m_timeout m = Some to -> timed_inv (s_now st) m.
+Proof. exact timed_invariant_reachable. Qed.
+Theorem C05_join_keeps_invariant : forall (A : Type) now new (m : mgr A),
+  timed_inv now m -> m_timeout m <> None -> timed_inv now (m_join now new m).
+Proof. exact timed_inv_join. Qed.
+(* after gc() no entry added at or before now - timeout is left, in every reachable state *)
+Theorem C05_gc_complete : forall (A : Type) (w : world A) tos h mi m to,
+  clock_monotone h ->
+  let st := final_state w (init_state A tos) h in
+  nth_error (s_mgrs st) mi = Some m -> m_timeout m = Some to ->
+  forall k d t, In (k, (d, t)) (m_entries (m_gc (s_now st) m)) -> t > s_now st - to.
+Proof. exact gc_complete. Qed.
+(* the converse ("gc removes ONLY expired entries") is not in the property text; it is false (same finding) *)
+Definition C05_gc_only_expired_full : Prop := gc_only_expired_full.
+Theorem C05_gc_only_expired_refuted : ~ C05_gc_only_expired_full.
+Proof. exact gc_only_expired_refuted. Qed.
+
+(* ---- unpersist ---- *)
+(* in every reachable state unpersist() of a persisted node returns its parent (node j), and an action
+   on the parent gives what the action on the persisted node gives: the cache-free result *)
+Theorem C05_unpersist_same_contents : forall (A : Type) (w : world A) tos h k j rid P ak,
+  built w -> wf_world w (length tos) ->
+  nth_error (w_pipes w) k = Some P -> nth_error (p_nodes P) j = Some (rid, SPersist) ->
+  let st := final_state w (init_state A tos) h in
+  fst (fst (step w st (Unpersist k (Datatypes.S j)))) = RNode j (concat (node_contents P (Datatypes.S j))) /\
+  fst (fst (step w st (Act k j ak))) = fst (fst (step w st (Act k (Datatypes.S j) ak))) /\
+  fst (fst (step w st (Act k j ak))) = finish ak (node_contents P (Datatypes.S j)).
+Proof. exact unpersist_same_contents. Qed.
+(* ... and leaves no entry with the id of that dataset in the manager of its context, for ANY index *)
+Theorem C05_unpersist_no_entry : forall (A : Type) (w : world A) tos h k j rid P cx,
+  built w -> wf_world w (length tos) ->
+  nth_error (w_pipes w) k = Some P -> nth_error (p_nodes P) j = Some (rid, SPersist) ->
+  nth_error (w_ctxs w) (p_ctx P) = Some cx ->
+  let st := final_state w (init_state A tos) h in
+  let st' := snd (step w st (Unpersist k (Datatypes.S j))) in
+  exists m', nth_error (s_mgrs st') (c_mgr cx) = Some m' /\ forall i, ~ has_key (rid, i) m'.
+Proof. exact unpersist_no_entry. Qed.
+
+(* ---- non-vacuity and sanity ---- *)
+(* the doctest of RDD.cache(): parallelize([1,2,3,4],2).map(x*x).cache(); first() computes partition 0
+   only (2 calls), collect() the rest (2 more calls), a second collect() none *)
+Definition doctest_world : world Z :=
+  World [Ctx 0 false] (fst (alloc_all 0 [(0%nat, [[1; 2]; [3; 4]], [SMap (fun x => x * x); SPersist])])).
+Example cache_doctest :
+  map (fun t => (fst (fst t), length (snd (fst t))))
+      (run_history doctest_world (init_state Z [None]) [Act 0 2 AFirst; Act 0 2 ACollect; Act 0 2 ACollect])
+  = [(RElem 1, 2%nat); (RList [1; 4; 9; 16], 2%nat); (RList [1; 4; 9; 16], 0%nat)].
+Proof. vm_compute. reflexivity. Qed.
+Example doctest_world_built : built doctest_world /\ wf_world doctest_world 1.
+Proof.
+  split; [exists 0, [(0%nat, [[1; 2]; [3; 4]], [SMap (fun x => x * x); SPersist])]; reflexivity|].
+  repeat constructor. exists (Ctx 0 false). split; [reflexivity | simpl; auto].
+Qed.
+(* the hypotheses of the timed theorems are met by a reachable state with entries and stamps *)
+Example timed_nonvacuous :
+  clock_monotone wit_history /\ s_now wit_state = 10 /\ nth_error (s_mgrs wit_state) 0 = Some wit_mgr /\
+  m_entries (m_gc 10 wit_mgr) = [].
+Proof. split; [exact wit_monotone | split; [apply wit_reached | split; [apply wit_reached | exact wit_gc_deletes]]]. Qed.
+(* ids that are NOT fresh (what per-context counters would give): dataset 2 of a second pipeline reads
+   the entry of dataset 2 of the first -- the hypothesis of C05_transparent_from_fresh_ids is needed *)
+Example cross_read_with_colliding_ids :
+  let w := World [Ctx 0 false; Ctx 0 false]
+                 [Pipe 0%nat 1 [[1; 2]] [(2, SPersist)]; Pipe 1%nat 1 [[7; 8]] [(2, SPersist)]] in
+  map (fun t => fst (fst t)) (run_history w (init_state Z [None]) [Act 0 1 ACollect; Act 1 1 ACollect])
+  = [RList [1; 2]; RList [1; 2]].
+Proof. vm_compute. reflexivity. Qed.
